@@ -813,7 +813,11 @@ impl Harness {
 // ------------------------------------------------------------------------------------------
 
 pub struct Explored {
-    pub states: Vec<St>,
+    /// number of unique states
+    pub n: u64,
+    /// per state: the structural key = Debug text of the implementation value + '\u{1}' +
+    /// canonical string of the model value (what de-duplication compares, exactly)
+    pub keys: Vec<Box<str>>,
     /// (parent state, action index); init states have parent u32::MAX and action = init index
     pub parent: Vec<(u32, u32)>,
     pub depth: Vec<u32>,
@@ -828,6 +832,10 @@ pub struct Explored {
     /// family -> (calls, Ok/true results, false results, Err results, disabled)
     pub per_action: BTreeMap<&'static str, [u64; 5]>,
     pub distinct_models: u64,
+    /// live values kept on request (C12): all of them up to the cap, an evenly thinned
+    /// subset (every 2^k-th state in BFS order) above it
+    pub kept: Vec<St>,
+    pub kept_stride: u64,
     pub wall: f64,
 }
 
@@ -844,91 +852,163 @@ impl Explored {
             i = p;
         }
     }
+    /// canonical string of the model value of state i
+    pub fn model_text(&self, i: u32) -> &str {
+        let k = &self.keys[i as usize];
+        k.rsplit('\u{1}').next().unwrap_or("")
+    }
 }
 
-struct Cand {
-    parent: u32,
-    action: u32,
-    hash: u64,
-    st: St,
+/// The structural key of a state.  Debug text of the implementation value is injective on its
+/// structure (every field is printed) and does not go through the library's own Eq/Hash; the
+/// canonical string of the model value is injective on model values (asserted when a state is
+/// materialised: re-reading it gives the same model).
+pub fn state_key(st: &St) -> String {
+    format!("{:?}\u{1}{}", st.imp, st.model.canon())
+}
+
+fn fnv(s: &str) -> u64 {
+    let mut h: u64 = 0xcbf29ce484222325;
+    for b in s.bytes() {
+        h ^= b as u64;
+        h = h.wrapping_mul(0x100000001b3);
+    }
+    // a final mix so that the low bits are usable by the hash map
+    h ^ (h >> 29)
+}
+
+/// exact set of structural keys: 64-bit hash -> state index, verified against the stored key;
+/// colliding keys go to an overflow map
+struct KeyIndex {
+    by_hash: HashMap<u64, u32>,
+    overflow: HashMap<Box<str>, u32>,
+}
+
+impl KeyIndex {
+    fn new() -> Self {
+        KeyIndex { by_hash: HashMap::new(), overflow: HashMap::new() }
+    }
+    fn get(&self, keys: &[Box<str>], h: u64, key: &str) -> Option<u32> {
+        match self.by_hash.get(&h) {
+            Some(i) if &*keys[*i as usize] == key => Some(*i),
+            Some(_) => self.overflow.get(key).copied(),
+            None => None,
+        }
+    }
+    fn insert(&mut self, h: u64, key: &str, i: u32) {
+        if self.by_hash.contains_key(&h) {
+            self.overflow.insert(key.into(), i);
+        } else {
+            self.by_hash.insert(h, i);
+        }
+    }
+}
+
+/// a state first met in the level being built: the smallest (parent, action) that produces it
+/// is retained, so that numbering, paths and fault attribution do not depend on scheduling
+enum NewState {
+    Good(u32, u32, St),
+    /// violates a per-state invariant: reported once, never explored
+    Faulty(u32, u32, Vec<Fault>),
 }
 
 struct ChunkOut {
-    pruned: u64,
-    cands: Vec<Cand>,
     faults: Vec<(u32, Option<u32>, Fault)>,
     transitions: u64,
     self_loops: u64,
     per_action: BTreeMap<&'static str, [u64; 5]>,
 }
 
-pub fn explore(ctx: &Ctx, h: &Harness, state_cap: usize) -> Result<Explored, String> {
+/// Level-synchronised BFS to exhaustion.  Only the current and the next level are held as live
+/// values; every older state is represented by its structural key (about half a kilobyte).
+pub fn explore(ctx: &Ctx, h: &Harness, state_cap: usize, keep_values: usize) -> Result<Explored, String> {
     let t0 = std::time::Instant::now();
-    let mut states: Vec<St> = vec![];
+    let mut keys: Vec<Box<str>> = vec![];
     let mut parent: Vec<(u32, u32)> = vec![];
     let mut depth: Vec<u32> = vec![];
-    let mut index: HashMap<u64, Vec<u32>> = HashMap::new();
-    let mut by_model: HashMap<u64, Vec<u32>> = HashMap::new();
+    let mut index = KeyIndex::new();
+    // route table (C12): model canonical string -> first state that had it
+    let mut by_model = KeyIndex::new();
+    let mut model_keys: Vec<Box<str>> = vec![]; // distinct model strings, indexed by by_model's values
+    let mut model_first: Vec<u32> = vec![];
     let mut faults: Vec<(u32, Option<u32>, Fault)> = vec![];
     let mut per_action: BTreeMap<&'static str, [u64; 5]> = BTreeMap::new();
-    let mut distinct_models = 0u64;
     let mut transitions = 0u64;
     let mut self_loops = 0u64;
     let mut pruned = 0u64;
     let mut levels = vec![];
+    let mut kept: Vec<St> = vec![];
+    let mut kept_stride = 1u64;
 
-    fn lookup(index: &HashMap<u64, Vec<u32>>, states: &[St], h: u64, st: &St) -> Option<u32> {
-        index.get(&h).and_then(|v| v.iter().copied().find(|i| states[*i as usize] == *st))
+    let mut frontier: Vec<St> = vec![];
+    let mut next_frontier: Vec<St> = vec![];
+
+    macro_rules! add_state {
+        ($st:expr, $key:expr, $hash:expr, $par:expr, $d:expr, $target:expr) => {{
+            let st: St = $st;
+            let key: String = $key;
+            let i = keys.len() as u32;
+            // route independence: the same model value with a different representation
+            let mtext = st.model.canon();
+            let mh = fnv(&mtext);
+            match by_model.get(&model_keys, mh, &mtext) {
+                Some(mi) => {
+                    let j = model_first[mi as usize];
+                    faults.push((i, None, Fault {
+                        sub: "c12.route",
+                        class: "the same logical value reached along two routes has two representations".into(),
+                        expected: format!("the representation of state #{}: {}", j, keys[j as usize].split('\u{1}').next().unwrap_or("")),
+                        observed: format!("{:?}", st.imp),
+                    }));
+                }
+                None => {
+                    let mi = model_keys.len() as u32;
+                    by_model.insert(mh, &mtext, mi);
+                    model_keys.push(mtext.into_boxed_str());
+                    model_first.push(i);
+                }
+            }
+            index.insert($hash, &key, i);
+            keys.push(key.into_boxed_str());
+            parent.push($par);
+            depth.push($d);
+            if keep_values > 0 && (i as u64) % kept_stride == 0 {
+                kept.push(st.clone());
+                if kept.len() > 2 * keep_values {
+                    // thin out: keep every other one, double the stride
+                    let mut k = 0usize;
+                    kept.retain(|_| {
+                        k += 1;
+                        k % 2 == 1
+                    });
+                    kept_stride *= 2;
+                }
+            }
+            $target.push(st);
+        }};
     }
-    let add_state = |st: St, hsh: u64, par: (u32, u32), d: u32,
-                         states: &mut Vec<St>, parent: &mut Vec<(u32, u32)>, depth: &mut Vec<u32>,
-                         index: &mut HashMap<u64, Vec<u32>>, by_model: &mut HashMap<u64, Vec<u32>>,
-                         faults: &mut Vec<(u32, Option<u32>, Fault)>, distinct_models: &mut u64| {
-        let i = states.len() as u32;
-        let mh = hash_of(&st.model);
-        let bucket = by_model.entry(mh).or_default();
-        let same_model = bucket.iter().copied().find(|j| states[*j as usize].model == st.model);
-        match same_model {
-            Some(j) => {
-                let other = &states[j as usize].imp;
-                let eq = *other == st.imp;
-                let heq = hash_of(other) == hash_of(&st.imp);
-                let ceq = other.cmp(&st.imp) == std::cmp::Ordering::Equal;
-                faults.push((i, None, Fault {
-                    sub: "c12.route",
-                    class: "the same logical value reached along two routes has two representations".into(),
-                    expected: format!("== / equal hash / Ordering::Equal with the value of state #{} ({})", j, other),
-                    observed: format!("eq={} hash_eq={} cmp_eq={} for {} | {:?} vs {:?}", eq, heq, ceq, st.imp, other, st.imp),
-                }));
-            }
-            None => {
-                *distinct_models += 1;
-                bucket.push(i);
-            }
-        }
-        index.entry(hsh).or_default().push(i);
-        states.push(st);
-        parent.push(par);
-        depth.push(d);
-    };
 
     for (k, (_, st)) in h.inits.iter().enumerate() {
-        let hsh = hash_of(st);
-        if lookup(&index, &states, hsh, st).is_none() {
-            add_state(st.clone(), hsh, (u32::MAX, k as u32), 0, &mut states, &mut parent, &mut depth, &mut index, &mut by_model, &mut faults, &mut distinct_models);
+        let key = state_key(st);
+        let hsh = fnv(&key);
+        if index.get(&keys, hsh, &key).is_none() {
+            add_state!(st.clone(), key, hsh, (u32::MAX, k as u32), 0, frontier);
         }
     }
     let mut lo = 0usize;
     let mut level = 0u32;
     const CHUNK: usize = 128;
-    while lo < states.len() {
-        let hi = states.len();
-        levels.push((hi - lo) as u64);
-        let nchunks = (hi - lo + CHUNK - 1) / CHUNK;
+    while !frontier.is_empty() {
+        let hi = lo + frontier.len();
+        levels.push(frontier.len() as u64);
+        let nchunks = (frontier.len() + CHUNK - 1) / CHUNK;
         let outs: Vec<Mutex<Option<ChunkOut>>> = (0..nchunks).map(|_| Mutex::new(None)).collect();
         let next = AtomicUsize::new(0);
+        const SHARDS: usize = 256;
+        let level_new: Vec<Mutex<HashMap<String, NewState>>> = (0..SHARDS).map(|_| Mutex::new(HashMap::new())).collect();
         {
-            let states_ref = &states;
+            let frontier_ref = &frontier;
+            let keys_ref = &keys;
             let index_ref = &index;
             std::thread::scope(|s| {
                 for _ in 0..ctx.threads.max(1).min(nchunks.max(1)) {
@@ -937,18 +1017,19 @@ pub fn explore(ctx: &Ctx, h: &Harness, state_cap: usize) -> Result<Explored, Str
                         if c >= nchunks {
                             break;
                         }
-                        let a = lo + c * CHUNK;
-                        let b = (a + CHUNK).min(hi);
-                        let mut out = ChunkOut { pruned: 0, cands: vec![], faults: vec![], transitions: 0, self_loops: 0, per_action: BTreeMap::new() };
+                        let a = c * CHUNK;
+                        let b = (a + CHUNK).min(frontier_ref.len());
+                        let mut out = ChunkOut { faults: vec![], transitions: 0, self_loops: 0, per_action: BTreeMap::new() };
                         let mut fl = vec![];
-                        for i in a..b {
-                            let st = &states_ref[i];
+                        for fi in a..b {
+                            let st = &frontier_ref[fi];
+                            let i = (lo + fi) as u32;
                             if level == 0 {
                                 // initial states are checked here; every other state was checked when
                                 // it was generated
                                 h.check(st, &mut fl);
                                 for x in fl.drain(..) {
-                                    out.faults.push((i as u32, None, x));
+                                    out.faults.push((i, None, x));
                                 }
                             }
                             for (ai, act) in h.menu.iter().enumerate() {
@@ -963,29 +1044,52 @@ pub fn explore(ctx: &Ctx, h: &Harness, state_cap: usize) -> Result<Explored, Str
                                             Ret::Err => e[3] += 1,
                                         }
                                         out.transitions += 1;
-                                        if ns == *st {
+                                        if ns == *st && format!("{:?}", ns.imp) == format!("{:?}", st.imp) {
                                             out.self_loops += 1;
                                         } else {
-                                            let hsh = hash_of(&ns);
-                                            if lookup(index_ref, states_ref, hsh, &ns).is_none() {
-                                                // a new state: evaluate the per-state invariants now; a state
-                                                // that violates one is reported and NOT explored further (its
+                                            let key = state_key(&ns);
+                                            let hsh = fnv(&key);
+                                            if index_ref.get(keys_ref, hsh, &key).is_none() {
+                                                // a state not seen in earlier levels.  The per-state
+                                                // invariants are evaluated once per new state; a state that
+                                                // violates one is reported and NOT explored further (its
                                                 // futures are not model states any more, and a value that has
-                                                // left the model -- e.g. a list that keeps growing -- would make
-                                                // the search infinite)
-                                                let before = fl.len();
-                                                h.check(&ns, &mut fl);
-                                                if fl.len() > before {
-                                                    out.pruned += 1;
-                                                } else {
-                                                    out.cands.push(Cand { parent: i as u32, action: ai as u32, hash: hsh, st: ns });
+                                                // left the model -- e.g. a list that keeps growing -- would
+                                                // make the search infinite).
+                                                let shard = &level_new[(hsh >> 7) as usize % SHARDS];
+                                                let mut g = shard.lock().unwrap();
+                                                match g.get_mut(&key) {
+                                                    Some(NewState::Good(p, a, _)) | Some(NewState::Faulty(p, a, _)) => {
+                                                        if (i, ai as u32) < (*p, *a) {
+                                                            *p = i;
+                                                            *a = ai as u32;
+                                                        }
+                                                    }
+                                                    None => {
+                                                        drop(g);
+                                                        let mut cf = vec![];
+                                                        h.check(&ns, &mut cf);
+                                                        let mut g = shard.lock().unwrap();
+                                                        match g.get_mut(&key) {
+                                                            Some(NewState::Good(p, a, _)) | Some(NewState::Faulty(p, a, _)) => {
+                                                                if (i, ai as u32) < (*p, *a) {
+                                                                    *p = i;
+                                                                    *a = ai as u32;
+                                                                }
+                                                            }
+                                                            None => {
+                                                                let v = if cf.is_empty() { NewState::Good(i, ai as u32, ns) } else { NewState::Faulty(i, ai as u32, cf) };
+                                                                g.insert(key, v);
+                                                            }
+                                                        }
+                                                    }
                                                 }
                                             }
                                         }
                                     }
                                 }
                                 for x in fl.drain(..) {
-                                    out.faults.push((i as u32, Some(ai as u32), x));
+                                    out.faults.push((i, Some(ai as u32), x));
                                 }
                             }
                         }
@@ -994,12 +1098,12 @@ pub fn explore(ctx: &Ctx, h: &Harness, state_cap: usize) -> Result<Explored, Str
                 }
             });
         }
-        // deterministic merge in chunk order
+        // deterministic merge: per-transition results in chunk order, new states in the order of
+        // the smallest (parent, action) that produces them
         for o in outs {
             let out = o.into_inner().unwrap().expect("chunk result");
             transitions += out.transitions;
             self_loops += out.self_loops;
-            pruned += out.pruned;
             faults.extend(out.faults);
             for (k, v) in out.per_action {
                 let e = per_action.entry(k).or_insert([0; 5]);
@@ -1007,21 +1111,42 @@ pub fn explore(ctx: &Ctx, h: &Harness, state_cap: usize) -> Result<Explored, Str
                     e[j] += v[j];
                 }
             }
-            for c in out.cands {
-                if lookup(&index, &states, c.hash, &c.st).is_none() {
-                    add_state(c.st, c.hash, (c.parent, c.action), level + 1, &mut states, &mut parent, &mut depth, &mut index, &mut by_model, &mut faults, &mut distinct_models);
+        }
+        let mut fresh: Vec<(u32, u32, String, NewState)> = vec![];
+        for shard in level_new {
+            for (key, v) in shard.into_inner().unwrap() {
+                let (p, a) = match &v {
+                    NewState::Good(p, a, _) | NewState::Faulty(p, a, _) => (*p, *a),
+                };
+                fresh.push((p, a, key, v));
+            }
+        }
+        fresh.sort_by(|x, y| (x.0, x.1).cmp(&(y.0, y.1)).then_with(|| x.2.cmp(&y.2)));
+        for (p, a, key, v) in fresh {
+            match v {
+                NewState::Good(_, _, st) => {
+                    let hsh = fnv(&key);
+                    add_state!(st, key, hsh, (p, a), level + 1, next_frontier);
+                }
+                NewState::Faulty(_, _, fs) => {
+                    pruned += 1;
+                    for f in fs {
+                        faults.push((p, Some(a), f));
+                    }
                 }
             }
         }
-        if states.len() > state_cap {
+        if keys.len() > state_cap {
             return Err(format!("harness {}: state cap {} exceeded at depth {} (the harness is meant to be finite and explored to exhaustion)", h.name, state_cap, level + 1));
         }
         lo = hi;
         level += 1;
+        frontier = std::mem::take(&mut next_frontier);
     }
     let max_depth = depth.iter().copied().max().unwrap_or(0);
     Ok(Explored {
-        states,
+        n: keys.len() as u64,
+        keys,
         parent,
         depth,
         transitions,
@@ -1031,7 +1156,9 @@ pub fn explore(ctx: &Ctx, h: &Harness, state_cap: usize) -> Result<Explored, Str
         levels,
         faults,
         per_action,
-        distinct_models,
+        distinct_models: model_keys.len() as u64,
+        kept,
+        kept_stride,
         wall: t0.elapsed().as_secs_f64(),
     })
 }
@@ -1232,8 +1359,10 @@ pub fn parsed_inits() -> Vec<(String, St)> {
     .collect()
 }
 
-/// every harness, with the large cross harness (C10; every thorough run)
+/// every harness, with the large cross harness (C10 quick; riders in the thorough tier)
 pub const ALL_LARGE: [&str; 5] = ["H-id", "H-u", "H-t", "H-x", "H-cross"];
+/// every harness, with the extra-large cross harness (C10 thorough)
+pub const ALL_XL: [&str; 5] = ["H-id", "H-u", "H-t", "H-x", "H-cross-xl"];
 /// every harness, with the small cross harness (quick tier of the properties that ride on E3)
 pub const ALL_SMALL: [&str; 5] = ["H-id", "H-u", "H-t", "H-x", "H-cross-s"];
 pub fn std_set(ctx: &Ctx) -> &'static [&'static str] {
@@ -1263,7 +1392,9 @@ pub fn harnesses(ctx: &Ctx, which: &[&str]) -> Vec<std::sync::Arc<Harness>> {
     if want("H-x") {
         out.push(std::sync::Arc::new(Harness { name: "H-x", inits: inits.clone(), menu: x_menu(thorough), probes: probes(), tag_cap: if thorough { 5 } else { 4 }, likely: likely.clone() }));
     }
-    for (hname, large) in [("H-cross", true), ("H-cross-s", false)] {
+    // three sizes of the cross harness: -s (27 648 states: quick tier of the properties that ride
+    // on E3), plain (248 832: C10 quick, riders in the thorough tier), -xl (7.0e6: C10 thorough)
+    for (hname, large, xl) in [("H-cross", true, false), ("H-cross-s", false, false), ("H-cross-xl", true, true)] {
         if !which.contains(&hname) {
             continue;
         }
@@ -1294,14 +1425,14 @@ pub fn harnesses(ctx: &Ctx, which: &[&str]) -> Vec<std::sync::Arc<Harness>> {
         if large {
             m.extend([Act::SetRegion(Some("GB")), Act::SetAttr("zzz9"), Act::RemoveAttr("ZZZ9"), Act::SetKeyword("1a", vec!["bar", "foo"]), Act::RemoveKeyword("1a"), Act::SetTfield("h0", vec!["foo", "bar"])]);
         }
-        if large && thorough {
+        if xl {
             m.extend([Act::SetScript(Some("Arab")), Act::SetLanguage("ar"), Act::AddTag("m"), Act::RemoveTag("M"), Act::SetTlang("en-Latn-US-1996"), Act::SetVariants(vec!["fonipa", "1996"])]);
         }
         let mut ci = vec![("default".to_string(), default_state())];
         if let Ok(st) = try_parse_state("en-Latn-US-valencia-t-de-h0-hybrid-u-abc-ca-foo-x-a") {
             ci.push(("parse(en-Latn-US-valencia-t-de-h0-hybrid-u-abc-ca-foo-x-a)".to_string(), st));
         }
-        out.push(std::sync::Arc::new(Harness { name: hname, inits: ci, menu: m, probes: probes(), tag_cap: if large && thorough { 3 } else { 2 }, likely: likely.clone() }));
+        out.push(std::sync::Arc::new(Harness { name: hname, inits: ci, menu: m, probes: probes(), tag_cap: if xl { 3 } else { 2 }, likely: likely.clone() }));
     }
     out
 }
@@ -1309,6 +1440,14 @@ pub fn harnesses(ctx: &Ctx, which: &[&str]) -> Vec<std::sync::Arc<Harness>> {
 // ------------------------------------------------------------------------------------------
 // running harnesses for a property
 // ------------------------------------------------------------------------------------------
+
+pub fn rss_mib() -> u64 {
+    std::fs::read_to_string("/proc/self/status")
+        .ok()
+        .and_then(|t| t.lines().find(|l| l.starts_with("VmRSS:")).and_then(|l| l.split_whitespace().nth(1).and_then(|x| x.parse::<u64>().ok())))
+        .map(|kb| kb / 1024)
+        .unwrap_or(0)
+}
 
 pub struct E3Summary {
     pub states: u64,
@@ -1325,16 +1464,17 @@ pub struct E3Summary {
 pub fn run_harnesses(ctx: &Ctx, which: &[&str], prefixes: &[&str], rep: &mut Report, keep_values: bool) -> E3Summary {
     let hs = harnesses(ctx, which);
     let mut sum = E3Summary { states: 0, transitions: 0, distinct_models: 0, json: json!({}), samples: vec![], values: vec![] };
-    let cap = if ctx.quick() { 3_000_000 } else { 20_000_000 };
+    let cap = if ctx.quick() { 3_000_000 } else { 40_000_000 };
+    let keep_cap = if ctx.quick() { 300_000 } else { 600_000 };
     for h in &hs {
-        let ex = match explore(ctx, h, cap) {
+        let ex = match explore(ctx, h, cap, if keep_values { keep_cap } else { 0 }) {
             Ok(e) => e,
             Err(e) => {
                 rep.engine_failures.push(e);
                 continue;
             }
         };
-        let n = ex.states.len() as u64;
+        let n = ex.n;
         sum.states += n;
         sum.transitions += ex.transitions;
         sum.distinct_models += ex.distinct_models;
@@ -1373,6 +1513,7 @@ pub fn run_harnesses(ctx: &Ctx, which: &[&str], prefixes: &[&str], rep: &mut Rep
         if n < 10 || ex.distinct_models < 10 {
             rep.engine_failures.push(format!("vacuity guard: harness {} explored only {} states", h.name, n));
         }
+        let rss_own = rss_mib();
         // engine cross-validation: stateright must find the same number of unique states
         let sr = if n <= 100_000 || !ctx.quick() {
             let c = stateright_counts(ctx, h);
@@ -1393,17 +1534,19 @@ pub fn run_harnesses(ctx: &Ctx, which: &[&str], prefixes: &[&str], rep: &mut Rep
             "states_per_level": ex.levels, "distinct_model_values": ex.distinct_models, "init_states": h.inits.len(),
             "actions_in_menu": h.menu.len(), "faults_recorded_all_properties": ex.faults.len(), "faults_of_this_property": kept,
             "per_action": pa, "stateright_bfs": sr, "explored_to_exhaustion": true, "wall_s": (ex.wall * 100.0).round() / 100.0,
+            "process_rss_mib_after_own_bfs": rss_own, "process_rss_mib_after_stateright": rss_mib(),
         });
         // samples: the deepest state's path, and one mid-depth path
         if n > 0 {
             let deepest = (0..n as u32).max_by_key(|i| ex.depth[*i as usize]).unwrap();
             for i in [deepest, (n / 2) as u32] {
                 let (init, ops) = ex.path(h, i);
-                sum.samples.push(json!({"harness": h.name, "init": init, "ops": ops, "reaches": ex.states[i as usize].imp.to_string()}));
+                sum.samples.push(json!({"harness": h.name, "init": init, "ops": ops, "reaches": ex.model_text(i)}));
             }
         }
         if keep_values {
-            sum.values.extend(ex.states.iter().cloned());
+            sum.values.extend(ex.kept.iter().cloned());
+            sum.json[h.name]["values_kept_for_pair_checks"] = json!({"kept": ex.kept.len(), "every_nth_state": ex.kept_stride});
         }
     }
     sum
@@ -1462,7 +1605,7 @@ pub fn fill_report(rep: &mut Report, sum: &E3Summary, what: &str) {
 
 pub fn run_c10(ctx: &Ctx) -> Report {
     let mut rep = Report::new();
-    let sum = run_harnesses(ctx, &ALL_LARGE, &["c10."], &mut rep, false);
+    let sum = run_harnesses(ctx, if ctx.quick() { &ALL_LARGE } else { &ALL_XL }, &["c10."], &mut rep, false);
     fill_report(&mut rep, &sum, "C10 histories");
     super::args::run_arg_sweep(ctx, &mut rep, true);
     rep.rule = "E3: every state reachable from default() and from six parser-built values under the menus of five harnesses (H-id, H-u, H-t, H-x, H-cross: every public mutator with valid, boundary and invalid arguments); after every call the result (Ok/Err/bool) is compared with the set/map model and an Err must leave the value unchanged; in every state every getter, is_empty, has_*, to_string and a re-parse are compared with the model. E4 (arguments): every byte string of length <= 2 and every boundary-class string up to length 9 as the textual argument of every getter/setter, compared with the model's validation and normalisation. distinct_nontrivial = distinct model values reached.".into();
